@@ -154,6 +154,8 @@ type Exec struct {
 	quiet     int
 	devirtCache map[string]devirtCacheEntry
 	stamps    map[string]int
+	reshapeSeen bool
+	lastDynSig *types.Signature
 }
 
 type probeInfo struct {
